@@ -163,6 +163,18 @@ fn must_differ<T: Eq + Ord + Hash>(a: &T, b: &T, what: &str) -> Option<Violation
 
 fn different_leaf(v: &Value) -> Value { if matches!(v, Value::Null) { Value::Boolean(true) } else { Value::Null } }
 
+/// `s` with one character (the first, the last or any) changed in exactly one bit of its code point.
+fn flip_char(s: &str, rng: &mut Rng) -> Option<String> {
+    let mut cs: Vec<char> = s.chars().collect();
+    if cs.is_empty() { return None; }
+    let at = match rng.below(3) { 0 => 0, 1 => cs.len() - 1, _ => rng.usize_below(cs.len()) };
+    for _ in 0..8 {
+        let bit = if (cs[at] as u32) < 0x80 { rng.below(7) } else { rng.below(21) } as u32;
+        if let Some(nc) = char::from_u32(cs[at] as u32 ^ (1 << bit)) { cs[at] = nc; return Some(cs.into_iter().collect()); }
+    }
+    None
+}
+
 /// Change exactly one leaf somewhere inside `v` (descending into arrays and objects at random).
 fn change_one_deep_leaf(v: &mut Value, rng: &mut Rng) {
     match v {
@@ -171,8 +183,25 @@ fn change_one_deep_leaf(v: &mut Value, rng: &mut Rng) {
             let i = rng.usize_below(o.len());
             if let Some((_, slot)) = o.iter_mut().nth(i) { change_one_deep_leaf(slot, rng) }
         }
-        Value::Number(n) => { *v = Value::Number(if n.as_str() == "7" { json_syntax::NumberBuf::new("8".as_bytes().into()).unwrap() } else { json_syntax::NumberBuf::new("7".as_bytes().into()).unwrap() }) }
-        Value::String(s) => { let mut t = s.as_str().to_string(); t.push('!'); *v = Value::String(t.as_str().into()) }
+        Value::Number(n) => {
+            // one digit moved to its neighbour (first, last or any digit), or the whole number replaced
+            let t = n.as_str().to_string();
+            let digits: Vec<usize> = t.bytes().enumerate().filter(|(_, b)| b.is_ascii_digit()).map(|(i, _)| i).collect();
+            let mut done = false;
+            if rng.chance(1, 2) && !digits.is_empty() {
+                let at = digits[match rng.below(3) { 0 => 0, 1 => digits.len() - 1, _ => rng.usize_below(digits.len()) }];
+                let mut b = t.clone().into_bytes();
+                b[at] = if b[at] == b'9' { b'8' } else { b[at] + 1 };
+                if let Ok(m) = json_syntax::NumberBuf::new(b.as_slice().into()) { *v = Value::Number(m); done = true; }
+            }
+            if !done { *v = Value::Number(if t == "7" { json_syntax::NumberBuf::new("8".as_bytes().into()).unwrap() } else { json_syntax::NumberBuf::new("7".as_bytes().into()).unwrap() }) }
+        }
+        Value::String(s) => {
+            // one character changed in a single bit (first, last or any character), or one character appended
+            let t = s.as_str().to_string();
+            let t = match if rng.chance(1, 2) { flip_char(&t, rng) } else { None } { Some(x) => x, None => { let mut x = t; x.push('!'); x } };
+            *v = Value::String(t.as_str().into())
+        }
         other => *other = different_leaf(other),
     }
 }
@@ -295,6 +324,8 @@ pub fn run_c14(sc: &HistSc, st: &mut Stats) -> super::c06::HistOutcome {
                     }
                 }
             }
+            if let Some(nk) = flip_char(obs[j].key.as_str(), &mut rng) { let mut e = obs.clone(); e[j].key = Key::from(nk.as_str()); near.push(("one character of one key changed in one bit", e)); }
+            if let Value::String(t) = &obs[j].value { if let Some(nt) = flip_char(t.as_str(), &mut rng) { let mut e = obs.clone(); e[j].value = Value::String(nt.as_str().into()); near.push(("one character of one string value changed in one bit", e)); } }
             { let mut e = obs.clone(); let x = e[j].clone(); e.push(x); near.push(("one entry duplicated", e)); }
             { let mut e = obs.clone(); e.remove(j); near.push(("one entry removed", e)); }
             if j + 1 < obs.len() && !(obs[j].key.as_str() == obs[j + 1].key.as_str() && same_value(&obs[j].value, &obs[j + 1].value)) { let mut e = obs.clone(); e.swap(j, j + 1); near.push(("two adjacent entries swapped", e)); }
@@ -367,6 +398,8 @@ pub fn run_c14(sc: &HistSc, st: &mut Stats) -> super::c06::HistOutcome {
             while k.len() < want { k.push(alphabet[rng.usize_below(alphabet.len())]); }
             keys.push(k);
         }
+        // half of them: one-bit siblings of the others
+        for i in 0..6 { if let Some(k) = flip_char(&keys[i].clone(), &mut rng) { keys[6 + i] = k; } }
         keys.sort(); keys.dedup();
         // hand the keys over in a drawn order (not sorted)
         for i in (1..keys.len()).rev() { let j = rng.usize_below(i + 1); keys.swap(i, j); }
